@@ -520,6 +520,11 @@ fn judge_wire(case: &br::Case, run: &br::Run, ctx: &mut CaseCtx) {
             if !needed(m) {
                 continue;
             }
+            // (a record whose 80 % mark fell into a time when no browsed service needed it - only a
+            // host name search, which asks once - is not demanded to be asked for again later)
+            if k > 0 && !needed(r_at + rec.ttl as u64 * 800) {
+                continue;
+            }
             // the record must have been cached at all: for non-PTR records that is the case when the
             // instance was found by then (its PTR came in a datagram for us)
             marks_checked += 1;
@@ -556,8 +561,8 @@ fn wire_strategy() -> BoxedStrategy<br::Case> {
         6 => prop_oneof![Just(1000u64), Just(8000), Just(20_000), Just(100_000), 0u64..30_000, 0u64..250_000].prop_map(|ms| BOp::Advance { ms }),
         1 => (any::<bool>(), prop_oneof![Just(0u64), Just(100)]).prop_map(|(on, delay_ms)| BOp::Responder { on, delay_ms, mute: 0 }),
     ];
-    (iftable(2), proptest::collection::vec(crate::props::c03::inst_strategy(false), 1..=2), proptest::collection::vec(op, 2..12), prop_oneof![Just(30_000u64), Just(250_000)])
-        .prop_map(|(ifs, mut insts, ops, tail_ms)| {
+    (iftable(2), proptest::collection::vec(crate::props::c03::inst_strategy(false), 1..=2), proptest::collection::vec(op, 2..12), prop_oneof![Just(30_000u64), Just(250_000)], proptest::collection::vec(0usize..2, 0..2))
+        .prop_map(|(ifs, mut insts, ops, tail_ms, resolve_hosts)| {
             for i in insts.iter_mut() {
                 i.ty = 0;
             }
@@ -572,6 +577,8 @@ fn wire_strategy() -> BoxedStrategy<br::Case> {
                 ops,
                 tail_ms,
                 forced_wakes: false,
+                // a host name search next to the browse: both refresh the same address records
+                resolve_hosts,
             }
         })
         .boxed()
